@@ -1121,3 +1121,72 @@ def c18(a):
     v.assumptions += ["integers and floats are identified as real numbers in the judge: a program whose own value depends on integer division is "
                       "classified under F6, not judged", "MC_Diff (shared with C05) covers the rule table"]
     return v.finish()
+
+
+FLOAT_V = __import__("re").compile(r'<<\s*"V",\s*(\d+),\s*"([^"]*)",\s*"([^"]*)",\s*"([^"]*)"\s*>>')
+EXPECTED_FLOAT_NAMES = {"^", "*", "/", "+", "-", "atan2", "min", "max", "abs", "signum", "sin", "cos", "tan", "asin", "acos", "atan", "sinh",
+                        "cosh", "tanh", "asinh", "acosh", "atanh", "floor", "round", "ceil", "trunc", "fract", "exp", "sqrt", "cbrt", "ln", "log2",
+                        "log10", "log", "PI", "GREEK_PI", "E", "e", "TAU", "GREEK_TAU"}
+
+
+@register("C19")
+def c19(a):
+    v = Verdict("C19", a.tier, "other")
+    what = "a default float operator does not compute the function it names"
+    obsp = work("C19", "floatgrid.ndjson")
+    p = vlib.run_recorder(["floatgrid", "--summary", obsp + ".sum"], stdout_path=obsp)
+    if p.returncode != 0:
+        v.violation({"pipeline": "floatgrid"}, f"{what}: the library aborted the recorder process")
+        return v.finish()
+    summ = json.load(open(obsp + ".sum"))
+    v.cov["traces_validated_against_impl"] += summ["cases"]
+    v.cov["evaluations"] += summ["cases"]
+    parts = pipeline.split_ndjson(obsp, 2000)
+    def judge(pp):
+        cfgj = os.path.join(SPEC, "Judge_Float.cfg")
+        r = vlib.run_tlc("Judge_Float", cfgj, f"C19-j-{os.path.basename(pp)}", workers=1, timeout=1500, env_extra={"TRACE": pp}, heap="3g")
+        vlib.tlc_or_die(r, f"Judge_Float on {pp}")
+        vs = [(int(m.group(1)), m.group(2), m.group(3), m.group(4)) for m in FLOAT_V.finditer(r.out)]
+        n = sum(1 for _ in open(pp))
+        if len(vs) != n:
+            raise vlib.ToolError(f"Judge_Float: {n} records but {len(vs)} verdicts parsed ({pp})")
+        return pp, r, vs
+    seen = {"f32": set(), "f64": set()}
+    stats = {"ok": 0, "unchecked": 0, "bad": 0}
+    for pp, r, vs in parallel([(lambda pp=pp: judge(pp)) for pp in parts], 8):
+        v.add_tlc(r, f"Judge_Float[{os.path.basename(pp)}]")
+        recs = None
+        for case, ty, verdict, op in vs:
+            seen[ty].add(op)
+            if verdict in ("ok", "unchecked"):
+                stats[verdict] += 1
+                continue
+            stats["bad"] += 1
+            if recs is None:
+                recs = {}
+                for line in open(pp):
+                    qq = json.loads(line)
+                    recs[qq["case"]] = qq
+            rr = recs.get(case, {})
+            v.violation({"record": rr}, f"{what}: {ty} `{op}` x={rr.get('x', rr.get('special'))} y={rr.get('y', rr.get('special2'))} -> {rr.get('r')}: {verdict}")
+    for ty in ("f32", "f64"):
+        missing = EXPECTED_FLOAT_NAMES - seen[ty]
+        extra = seen[ty] - EXPECTED_FLOAT_NAMES
+        if missing:
+            v.violation({"missing": sorted(missing), "type": ty}, f"{what}: operators/constants missing from the {ty} table: {sorted(missing)}")
+        if extra:
+            v.notes.append(f"{ty}: operators not characterised by FloatSem: {sorted(extra)}")
+    v.cov["steps_judged"] = stats
+    v.cov["distinct_nontrivial"] = stats["ok"] + stats["bad"]
+    v.cov["rule"] = ("34 operators + 6 constants x {f32, f64}: unary on a 17-point grid in [-3, 3], binary on the 17x17 grid, 11 special values "
+                     "(nan, +-inf, +-0, 1, -1, 2, 0.5, tiny, huge) and their 121 pairs; direct application and parsed infix / call-form "
+                     "expressions must agree bit for bit; non-trivial = verdict ok/bad (not 'unchecked')")
+    v.cov["explanation"] = ("FloatSem.tla characterises every name in 1e-4 fixed point (exact algebraic operators, Taylor polynomials for exp/sin/cos, "
+                            "defining equations with principal ranges for the others, digits + equations for the constants, a class table for "
+                            "special values); the recorder only rounds to fixed point and supplies the compositions the equations mention, "
+                            "computed with the table's own functions. This decides identity and argument order of every operator at 3e-3; it does "
+                            "NOT decide accuracy to within rounding (TLA+ has no floating point).")
+    v.cov["exhaustive"] = True
+    v.sample({"ty": "f64", "op": "atan2", "x": -3.0, "y": -2.0, "axiom": "x*cos(r) = y*sin(r), sign(sin r) = sign(x), sign(cos r) = sign(y)"})
+    v.assumptions.append("rounding-level accuracy and the full NaN payload / signed-zero behaviour are not decided; signed zeros only where the class table lists them")
+    return v.finish()
